@@ -21,6 +21,13 @@ def srcVal (l : List Int) : Src → Option Int
 
 def insertAt (l : List Int) (pos : Nat) (xs : List Int) : List Int := l.take pos ++ xs ++ l.drop pos
 
+/-- index of the element an accessor refers to; `none`: the accessor's precondition is violated (`v[i]` with `i ≥ size()`,
+`front()` / `back()` of an empty vector) -/
+def accIdx (l : List Int) : Acc → Option Nat
+  | .index i => if i < l.length then some i else none
+  | .front => if l.length ≠ 0 then some 0 else none
+  | .back => if l.length ≠ 0 then some (l.length - 1) else none
+
 def svstep (l : List Int) : VOp → Option (List Int × Option Nat)
   | .pushBack s => (srcVal l s).map fun x => (l ++ [x], none)
   | .popBack => if l.length = 0 then none else some (l.take (l.length - 1), none)
@@ -33,6 +40,11 @@ def svstep (l : List Int) : VOp → Option (List Int × Option Nat)
   | .reserve _ => some (l, none)
   | .shrink => some (l, none)
   | .clear => some ([], none)
+  | .assign a x => (accIdx l a).map fun i => (l.set i x, none)
+  -- a range of the vector itself: not allowed for std::vector at all; specified here (as "insert a copy of the range") where
+  -- raw_vector's result does not depend on whether it reallocates: the range lies in front of the insertion point
+  | .insertSelf pos a b =>
+    if a ≤ b ∧ b ≤ pos ∧ pos ≤ l.length then some (insertAt l pos ((l.drop a).take (b - a)), none) else none
 
 def sconstruct : Ctor → List Int
   | .dflt => []
@@ -57,21 +69,23 @@ structure SSt where
 def SSt.init : SSt := ⟨fun _ => [], fun _ => ([], 0)⟩
 
 /-- Move *assignment* leaves the source "valid but unspecified" in the standard; the specification
-fixes it to the target's old contents (what an implementation by swap does). Move *construction*
-leaves the source empty. -/
+fixes it to the target's old contents (what an implementation by swap does); `v = std::move(v)` leaves `v` unchanged.
+Move *construction* leaves the source empty. -/
 def sstep (st : SSt) : Op → Option (SSt × Option Nat)
   | .v r o => (svstep (st.vec r) o).map fun x => (⟨upd st.vec r x.1, st.buf⟩, x.2)
   | .ctor r c => some (⟨upd st.vec r (sconstruct c), st.buf⟩, none)
   | .ctorMove r s => if r = s then none else some (⟨upd (upd st.vec s []) r (st.vec s), st.buf⟩, none)
   | .ctorBuf r b => some (⟨upd st.vec r (st.buf b).1, upd st.buf b ([], 0)⟩, none)
   | .swap r s => some (⟨upd (upd st.vec s (st.vec r)) r (st.vec s), st.buf⟩, none)
-  | .moveAssign r s => if r = s then none else some (⟨upd (upd st.vec s (st.vec r)) r (st.vec s), st.buf⟩, none)
+  | .moveAssign r s => some (⟨upd (upd st.vec s (st.vec r)) r (st.vec s), st.buf⟩, none)
   | .bctor b n => some (⟨st.vec, upd st.buf b ([], n)⟩, none)
   | .bread b size xs => if xs.length ≤ size then some (⟨st.vec, upd st.buf b (xs, size - xs.length)⟩, none) else none
+  | .breadOpt b _ none => some (⟨st.vec, upd st.buf b ([], 0)⟩, some 0)
+  | .breadOpt b size (some xs) => if xs.length ≤ size then some (⟨st.vec, upd st.buf b (xs, size - xs.length)⟩, some 1) else none
   | .b k o => (sbstep (st.buf k) o).map fun x => (⟨st.vec, upd st.buf k x.1⟩, x.2)
   | .bctorMove b c => if b = c then none else some (⟨st.vec, upd (upd st.buf c ([], 0)) b (st.buf c)⟩, none)
   | .bswap b c => some (⟨st.vec, upd (upd st.buf c (st.buf b)) b (st.buf c)⟩, none)
-  | .bmoveAssign b c => if b = c then none else some (⟨st.vec, upd (upd st.buf c (st.buf b)) b (st.buf c)⟩, none)
+  | .bmoveAssign b c => some (⟨st.vec, upd (upd st.buf c (st.buf b)) b (st.buf c)⟩, none)
 
 def srunAll (st : SSt) : List Op → Option SSt
   | [] => some st
